@@ -884,6 +884,11 @@ class HarnessRT(object):
                 fut = make_task(style, self, root)
                 self.tasks[()] = fut
                 v = t_parent.asynq(self, fut).value()
+            elif how == "prebuilt":
+                # the root task object was built earlier (possibly on another thread)
+                fut = self.prebuilt
+                self.tasks[()] = fut
+                v = fut.value()
             else:
                 raise HarnessFault("how %r" % (how,))
             out = ("val", v)
